@@ -17,30 +17,35 @@ type registry struct {
 var global sync.Map
 
 func loadDeleteField(r *registry, k string) {
-	if v, ok := r.byValue.Load(k); ok {
+	v1, ok1 := r.byValue.Load(k)
+	if ok1 {
 		r.byValue.Delete(k)
-		_ = v
+		_ = v1
 	}
-	if v, ok := r.byPtr.Load(k); ok {
+	v2, ok2 := r.byPtr.Load(k)
+	if ok2 {
 		r.byPtr.Delete(k)
-		_ = v
+		_ = v2
 	}
-	if v, ok := global.Load(k); ok {
+	v3, ok3 := global.Load(k)
+	if ok3 {
 		global.Delete(k)
-		_ = v
+		_ = v3
 	}
 }
 
 func loadDeleteLocal(k string) {
 	var m sync.Map
 	pm := &m
-	if v, ok := m.Load(k); ok {
+	v1, ok1 := m.Load(k)
+	if ok1 {
 		m.Delete(k)
-		_ = v
+		_ = v1
 	}
-	if v, ok := pm.Load(k); ok {
+	v2, ok2 := pm.Load(k)
+	if ok2 {
 		pm.Delete(k)
-		_ = v
+		_ = v2
 	}
 }
 
